@@ -43,6 +43,8 @@ type Case struct {
 	Input    string   // spelling of the root file on the command line (relative to Cwd), when it is not the plain path
 	SubPkgs  []string // further Go packages of the run (batch.Program.SubNames); Args map ids to them with {{PKG}} / {{OUT}}
 	Group    []*Case  // further schema files passed to the SAME generator invocation (same package); each has its own root type and documents
+	Classes  docgen.Classes // mutation classes for this case's automatic documents (nil: the check's own)
+	AllOwn   bool           // every document of this case counts, whatever classes the check owns
 
 	prog *batch.Program
 	idx  int
@@ -470,12 +472,16 @@ func runBatch(cfg *Config, rep *Report, ks *known.Set, cases []*Case) error {
 				valids = append(valids, v)
 				docs = append(docs, docgen.Doc{V: v, Class: "valid", Label: fmt.Sprintf("valid-%d", m)})
 			}
-			if len(cfg.Classes) > 0 {
+			classes := cfg.Classes
+			if c.Classes != nil {
+				classes = c.Classes
+			}
+			if len(classes) > 0 {
 				for i, v := range valids {
 					if i >= 3 {
 						break
 					}
-					docs = append(docs, g.Mutants(c.Root, v, cfg.Classes, cfg.PerSite, cfg.IntLim)...)
+					docs = append(docs, g.Mutants(c.Root, v, classes, cfg.PerSite, cfg.IntLim)...)
 				}
 			}
 		}
@@ -522,7 +528,7 @@ func runBatch(cfg *Config, rep *Report, ks *known.Set, cases []*Case) error {
 					continue
 				}
 			}
-			if cfg.Own != nil && !cfg.Own(d, mr) {
+			if cfg.Own != nil && !c.AllOwn && !cfg.Own(d, mr) {
 				continue
 			}
 			for _, mode := range cfg.Modes {
